@@ -43,6 +43,10 @@ type VAdv struct {
 	// SyncHeight > 0: member 1 also serves sync requests from a store holding the reference chain up to this
 	// round (the real SyncChain server on a real store), i.e. V's peers are ahead of V's clock.
 	SyncHeight uint64
+	// Transition: V is handed the result of a resharing (its new share, the new group) when it starts; the new group
+	// takes over at round TransitionRound
+	Transition      *Keys
+	TransitionRound uint64
 	// ExpectBeacon[i], when set for sequence i, lists the rounds V must have stored at the end under the
 	// default schedule... (not used by safety oracles)
 }
@@ -146,6 +150,12 @@ func (h *VAdv) Run(devs []vrt.Dev, labels bool) *VAdvResult {
 			res.Err = err
 			return
 		}
+		if h.Transition != nil {
+			g := h.Transition.Group()
+			g.TransitionTime = common.TimeOfRound(k.Period, k.Genesis, h.TransitionRound)
+			vrt.Logf("V learns the new group (threshold %d -> %d, transition at round %d)", k.T, h.Transition.T, h.TransitionRound)
+			v.H.TransitionNewGroup(ctx, h.Transition.Share(0), g)
+		}
 		vrt.GoNamed("adversary", func() {
 			for _, it := range seq {
 				if it.AtRound > 0 {
@@ -216,9 +226,19 @@ func (h *VAdv) Judge(r *VAdvResult, prefix string) *explore.Exec {
 		prevSig = b.Signature
 		// threshold accounting at the time of the write
 		signers := map[int]bool{}
+		// from the transition round on, the members and the threshold are those of the new group
+		kk := k
+		if h.Transition != nil && b.Round >= h.TransitionRound {
+			kk = h.Transition
+		}
 		for _, d := range r.Net.Ledger {
-			if d.To == r.V.Idx && d.Valid && d.Round == b.Round && (!chained || bytes.Equal(d.Prev, b.PreviousSig)) && !d.SenderNow.After(r.WriteAt[i]) {
-				signers[d.SignerIdx] = true
+			valid, idx := d.Valid, d.SignerIdx
+			if kk != k {
+				ix, err := kk.RefVerifyPartial(d.Round, d.Prev, d.Sig)
+				valid, idx = err == nil, ix
+			}
+			if d.To == r.V.Idx && valid && d.Round == b.Round && (!chained || bytes.Equal(d.Prev, b.PreviousSig)) && !d.SenderNow.After(r.WriteAt[i]) {
+				signers[idx] = true
 			}
 		}
 		dg := RefDigest(k.SchemeID, b.Round, b.PreviousSig)
@@ -230,8 +250,8 @@ func (h *VAdv) Judge(r *VAdvResult, prefix string) *explore.Exec {
 		if h.SyncHeight >= b.Round && bytes.Equal(ref[b.Round].Signature, b.Signature) {
 			continue // may legitimately come from the sync source
 		}
-		if len(signers) < k.T {
-			add("below-threshold", "round %d was stored while only %d distinct members (%v) had a valid partial for it at V (threshold %d)", b.Round, len(signers), keys(signers), k.T)
+		if len(signers) < kk.T {
+			add("below-threshold", "round %d was stored while only %d distinct members (%v) had a valid partial for it at V (threshold %d)", b.Round, len(signers), keys(signers), kk.T)
 		}
 	}
 	x.Outcome = fmt.Sprintf("seq#%d writes=[%s]", r.Seq, strings.Join(wr, " "))
